@@ -3,7 +3,7 @@
 //! Fault enumeration with deviating hint executors: circuits using `decompose_to_bits` and
 //! `decompose_ext_to_base_coeffs` are run with the hint replaced (`Op::Hint { executor }` is a
 //! public field of `Circuit::ops`) by one that emits an alternative decomposition satisfying the
-//! recomposition identity (bits of x + k·p; coefficients with mass moved between limbs / non-base
+//! recomposition identity (bits of x + k·p; one non-boolean bit compensating a flipped one; coefficients with mass moved between limbs / non-base
 //! limbs). The resulting trace is proven with the honest prover data and verified. An accepted
 //! proof containing a non-canonical decomposition refutes the property.
 //! (The challenger gadgets `sample_bits` / `check_pow_witness` / `observe_ext` are exercised with
@@ -114,8 +114,11 @@ fn prove_with_hint<S: Setup>(
 }
 
 /// decompose_to_bits(x, n) with the bits of x + k·p.
-fn bits_case<S: Setup>(x: u64, class: &str, n: usize, k: u64, use_bits: u32) -> CaseResult {
-    let key = format!("{}:bits:{class}:n{n}:k{k}:use{use_bits}", S::NAME);
+/// `nonbool = Some((j, i))`: instead of the bits of x + k·p, the canonical bits with bit `i` flipped
+/// and bit `j` set to the (non-boolean) field element that restores the recomposition identity.
+fn bits_case<S: Setup>(x: u64, class: &str, n: usize, k: u64, use_bits: u32, nonbool: Option<(usize, usize)>) -> CaseResult {
+    let key = format!("{}:bits:{class}:n{n}:k{k}:use{use_bits}:nb{nonbool:?}", S::NAME);
+    let k = if nonbool.is_some() { 0 } else { k };
     let p = S::order() as u128;
     let alt_val = x as u128 + k as u128 * p;
     let fits = n >= 128 || alt_val < (1u128 << n);
@@ -147,12 +150,31 @@ fn bits_case<S: Setup>(x: u64, class: &str, n: usize, k: u64, use_bits: u32) -> 
         return CaseResult::inconclusive(key, "build failed");
     };
     // alternative bits (little endian, single limb)
-    let alt_bits: Vec<S::E> = (0..n).map(|i| if (alt_val >> i) & 1 == 1 { S::E::ONE } else { S::E::ZERO }).collect();
+    let mut alt_bits: Vec<S::E> = (0..n).map(|i| if (alt_val >> i) & 1 == 1 { S::E::ONE } else { S::E::ZERO }).collect();
     let canon = canonical_bits::<S>(&S::el(&[x]), n);
+    let mut nb_class = "";
+    if let Some((j, i)) = nonbool {
+        let Some(c) = canon.as_ref() else {
+            return CaseResult::held(key, false).count("bits/no-canonical-decomposition-at-this-width", 1);
+        };
+        if i == j || i >= n || j >= n {
+            return CaseResult::held(key, false).count("bits/nonbool-not-applicable", 1);
+        }
+        alt_bits = c.clone();
+        let two = S::E::ONE + S::E::ONE;
+        let pow = |e: usize| (0..e).fold(S::E::ONE, |a, _| a * two);
+        let flipped = if c[i] == S::E::ZERO { S::E::ONE } else { S::E::ZERO };
+        let delta = (flipped - c[i]) * pow(i);
+        alt_bits[i] = flipped;
+        alt_bits[j] = c[j] - delta * pow(j).inverse();
+        nb_class = if j == 0 { "lsb" } else if j == n - 1 { "msb" } else { "inner" };
+    }
     if canon.as_ref() == Some(&alt_bits) {
         return CaseResult::held(key, false).count("bits/alternative-equals-canonical", 1);
     }
-    debug_assert!(recompose_bits::<S>(&alt_bits) == S::el(&[x]));
+    if recompose_bits::<S>(&alt_bits) != S::el(&[x]) {
+        return CaseResult::inconclusive(key, "alternative does not satisfy the recomposition identity");
+    }
     // the public "out" as the deviating prover computes it
     let seven = S::el(&[7]);
     let xe = S::el(&[x]);
@@ -174,14 +196,18 @@ fn bits_case<S: Setup>(x: u64, class: &str, n: usize, k: u64, use_bits: u32) -> 
     match outcome {
         Outcome::Accepted => CaseResult::violated(
             key,
-            format!("noncanonical-accepted/bits/{}-bit-limb{}", limb_bits::<S>(), if full_width { "" } else { "/narrow-width" }),
-            json!({"setup": S::NAME, "gadget": "decompose_to_bits", "x": x, "n_bits": n, "k": k, "use": use_bits,
+            if nonbool.is_some() {
+                format!("noncanonical-accepted/bits/nonboolean-bit/{nb_class}")
+            } else {
+                format!("noncanonical-accepted/bits/{}-bit-limb{}", limb_bits::<S>(), if full_width { "" } else { "/narrow-width" })
+            },
+            json!({"setup": S::NAME, "gadget": "decompose_to_bits", "x": x, "n_bits": n, "k": k, "use": use_bits, "nonbool": nonbool.map(|(j, i)| vec![j, i]),
                    "alternative_value": alt_val.to_string(), "observable_output_differs_from_canonical": differs_from_canonical}),
         ),
         Outcome::NoAlternative => CaseResult::inconclusive(key, "hint op not found"),
         Outcome::RunRejected(e) => CaseResult::held(key, true).count(format!("bits/rejected-by-run/{}", e.split(|c: char| !c.is_alphanumeric()).next().unwrap_or("")), 1),
-        Outcome::ProverRejected(_) => CaseResult::held(key, true).count("bits/rejected-by-prover", 1),
-        Outcome::VerifierRejected(_) => CaseResult::held(key, true).count("bits/rejected-by-verifier", 1),
+        Outcome::ProverRejected(_) => CaseResult::held(key, true).count(format!("bits{}/rejected-by-prover", if nonbool.is_some() { format!("-nonboolean-{nb_class}") } else { String::new() }), 1),
+        Outcome::VerifierRejected(_) => CaseResult::held(key, true).count(format!("bits{}/rejected-by-verifier", if nonbool.is_some() { format!("-nonboolean-{nb_class}") } else { String::new() }), 1),
     }
 }
 
@@ -269,7 +295,19 @@ fn case<S: Setup>(seed: u64, idx: usize, _tier: Tier) -> Vec<CaseResult> {
         let need = (64 - x.leading_zeros() as usize).max(1);
         let n = if rng.random_range(0..2u32) == 0 { w } else { (need + rng.random_range(0..3usize)).min(w) };
         let k = rng.random_range(1..=3u64);
-        let r = bits_case::<S>(x, class, n, k, rng.random_range(0..3));
+        // a third of the bit cases: one non-boolean bit (LSB / inner / MSB) compensating a flipped one
+        let nonbool = if n >= 2 && rng.random_range(0..3u32) == 0 {
+            let j = match rng.random_range(0..3u32) {
+                0 => 0,
+                1 => n - 1,
+                _ => rng.random_range(0..n),
+            };
+            let i = (j + 1 + rng.random_range(0..n - 1)) % n;
+            Some((j, i))
+        } else {
+            None
+        };
+        let r = bits_case::<S>(x, class, n, k, rng.random_range(0..3), nonbool);
         out.push(if idx < 8 {
             r.with_sample(json!({"setup": S::NAME, "gadget": "decompose_to_bits", "x": x, "class": class, "n": n, "k": k}))
         } else {
@@ -292,6 +330,7 @@ fn replay(d: &Value) -> Vec<CaseResult> {
                 d["n_bits"].as_u64().unwrap() as usize,
                 d["k"].as_u64().unwrap(),
                 d["use"].as_u64().unwrap() as u32,
+                d["nonbool"].as_array().map(|a| (a[0].as_u64().unwrap() as usize, a[1].as_u64().unwrap() as usize)),
             )]
         } else {
             let mut rng = case_rng(0, "c12-replay", 0);
